@@ -24,6 +24,15 @@ impl Engine for Debug {
     }
     fn execute(&self, sc: &DebugSc, stats: &mut Stats) -> Option<(Violation, DebugSc)> {
         stats.mark("n", sc.n);
+        if self.kind == "history" {
+            // fails only once this process has executed a few runs before (state kept across runs)
+            static EXECUTED: std::sync::atomic::AtomicU64 = std::sync::atomic::AtomicU64::new(0);
+            let before = EXECUTED.fetch_add(1, std::sync::atomic::Ordering::SeqCst);
+            if before >= 4 && sc.n % 5 == 2 {
+                return Some((Violation::new("history-dependent", format!("n={} after {before} earlier runs in this process", sc.n)), sc.clone()));
+            }
+            return None;
+        }
         if sc.n % 97 == 13 {
             match self.kind {
                 "hang" => loop {
